@@ -587,19 +587,20 @@ def run(facts, cg):
                 why = show(term)[:80]
                 if has_call(term, 'HashMap::len'):
                     ok = True
-                elif term[0] == 'field' and isinstance(term[1], tuple) and term[1][0] == 'env':
-                    # a captured counter: advanced by one in this closure, on the way of the insert
+                elif term[0] == 'field' and not any(n[0] == 'call' for n in walk(term)):
+                    # a counter kept next to the table (a captured variable, or a field of the struct that holds the table):
+                    # advanced by one in this closure, on the way of the insert
                     incs = 0
                     for cbi in c.live:
                         for st in c.blocks[cbi]['stmts']:
-                            if st['k'] == 'assign' and st['pl']['p'] and st['pl']['l'] == 1 and st['pl']['p'][-1]['k'] in ('field', 'deref'):
-                                fidx = [p_['i'] for p_ in st['pl']['p'] if p_['k'] == 'field']
-                                if fidx and fidx[0] == term[2]:
-                                    vt = simplify(T.of_rvalue(c, st['rv'], 0))
-                                    if vt[0] == 'binop' and vt[1] == 'Add' and ('const', 1) in (vt[2], vt[3]):
-                                        incs += 1
+                            if st['k'] == 'assign' and st['pl']['p'] and st['pl']['p'][-1]['k'] in ('field', 'deref'):
+                                vt = simplify(T.of_rvalue(c, st['rv'], 0))
+                                if vt[0] == 'field' and len(vt) > 2 and vt[2] == 0 and isinstance(vt[1], tuple) and vt[1][0] == 'binop':
+                                    vt = vt[1]          # the value half of a checked addition
+                                if vt[0] == 'binop' and vt[1] in ('Add', 'AddWithOverflow') and ('const', 1) in (vt[2], vt[3]) and term in (vt[2], vt[3]):
+                                    incs += 1
                     ok = incs == 1
-                    why = 'captured counter with %d increments' % incs
+                    why = 'a counter with %d increments' % incs
                 instances.append({'rule': 'R-DICT-WIRING(order-index)', 'function': c.q, 'at': t['loc'], 'value': why, 'ok': ok})
                 if not ok:
                     finding(facts.bodies[pid].q, 'order-index', 'the index recorded for a chunk seen for the first time is %s, not a count of unique chunks: after the first '
